@@ -289,7 +289,8 @@ class Ctx:
             'wall_s': round(wall, 3), 'violations': len(self.violations),
         }
         os.makedirs(os.path.join(VERIF, 'evidence'), exist_ok=True)
-        with open(os.path.join(VERIF, 'evidence', f'{self.pid}.json'), 'w') as fh:
+        fname = f'{self.pid}.json' if not getattr(self, 'debug', False) else f'debug-{self.pid}.json'
+        with open(os.path.join(VERIF, 'evidence', fname), 'w') as fh:
             json.dump(ev, fh, indent=1, default=str)
             fh.write('\n')
         for key, what in sorted(self.known_hits.items()):
